@@ -588,18 +588,40 @@ fn random_call(rng: &mut Rng, m: &Mkt) -> Value {
             if let Some(d1) = d1 {
                 if d1["d"]["end"].as_i64().unwrap() <= epoch && rng.chance(35) {
                     let sector = s1["s"]["sector"].as_i64().unwrap();
-                    return json!({"a": "Terminate", "m": d1["d"]["p"], "secs": [sector]});
+                    // ... together with the sectors of the same provider's running deals (so that one call covers an
+                    // expired deal with a lower id and a live one with a higher id)
+                    let mut secs = vec![sector];
+                    for s2 in stv {
+                        if let Some(d2) = st["prop"].as_array().unwrap().iter().find(|p| p["id"] == s2["id"]) {
+                            let sec2 = s2["s"]["sector"].as_i64().unwrap();
+                            if d2["d"]["p"] == d1["d"]["p"] && d2["d"]["end"].as_i64().unwrap() > epoch && !secs.contains(&sec2) && rng.chance(70) {
+                                secs.push(sec2);
+                            }
+                        }
+                    }
+                    return json!({"a": "Terminate", "m": d1["d"]["p"], "secs": secs});
                 }
             }
         }
     }
     // activation lists with a non-adjacent repeat
-    if waiting.len() >= 2 && rng.chance(6) {
-        let a = waiting[0]["id"].as_i64().unwrap();
-        let b = waiting[1]["id"].as_i64().unwrap();
-        let m = waiting[0]["d"]["p"].as_str().unwrap();
-        let exp = waiting[0]["d"]["end"].as_i64().unwrap().max(waiting[1]["d"]["end"].as_i64().unwrap());
-        return json!({"a": "Activate", "m": m, "sectors": [{"sector": 1, "expiry": exp, "ids": [a, b, a]}]});
+    if waiting.len() >= 2 && rng.chance(12) {
+        // two deals of the same provider that can both still be activated, if there are such
+        let ok = |w: &Value| w["d"]["start"].as_i64().unwrap() >= epoch;
+        let mut pair = (0usize, 1usize);
+        'find: for i in 0..waiting.len() {
+            for j in 0..waiting.len() {
+                if i != j && waiting[i]["d"]["p"] == waiting[j]["d"]["p"] && ok(&waiting[i]) && ok(&waiting[j]) {
+                    pair = (i, j);
+                    break 'find;
+                }
+            }
+        }
+        let a = waiting[pair.0]["id"].as_i64().unwrap();
+        let b = waiting[pair.1]["id"].as_i64().unwrap();
+        let m = waiting[pair.0]["d"]["p"].as_str().unwrap();
+        let exp = waiting[pair.0]["d"]["end"].as_i64().unwrap().max(waiting[pair.1]["d"]["end"].as_i64().unwrap());
+        return json!({"a": "Activate", "m": m, "sectors": [{"sector": rng.range(1, 3), "expiry": exp, "ids": [a, b, a]}]});
     }
     if !active.is_empty() && rng.chance(20) {
         let mut sids = vec![*rng.pick(&active)];
